@@ -381,11 +381,26 @@ def concurrent_runs(seeds):
         return htf.Diagnosis(build.R.a if tag == 'A' else build.R.b, 'by %s' % tag)
       dg = diagnoses_lib.PhaseDiagnoser(build.R, name='dg', run_func=run_fn)
 
+      from openhtf.core import base_plugs
+
+      class Own(base_plugs.BasePlug):
+        """per-run plug: each run has its own instance, torn down when that run ends"""
+
+        def __init__(self):
+          self.owner = None
+          self.torn = False
+
+        def tearDown(self):
+          self.torn = True
+
+      @htf.plug(own=Own)
       @htf.diagnose(dg)
       @htf.measures(htf.Measurement('who'), htf.Measurement('val'), htf.Measurement('dim').with_dimensions('i'))
-      def shared(test):
+      def shared(test, own):
         tag = tag_of[threading.current_thread().name.split(':')[0]] if False else test.state.get('tag')
         tag = box['tags'][id(test.test_record)]
+        if own.owner is None:
+          own.owner = tag
         test.state['tag'] = tag
         test.measurements.who = tag
         for i in range(3):
@@ -395,7 +410,9 @@ def concurrent_runs(seeds):
         test.attach('att', ('data of %s' % tag).encode())
         test.logger.warning('phase-log-from-%s', tag)
 
-      def second(test):
+      @htf.plug(own=Own)
+      def second(test, own):
+        box.setdefault('own_seen', {})[box['tags'][id(test.test_record)]] = (own.owner, own.torn, id(own))
         box.setdefault('state_seen', {})[box['tags'][id(test.test_record)]] = dict(test.state)
         box.setdefault('diag_seen', {})[box['tags'][id(test.test_record)]] = (
             test.diagnoses_store.has_diagnosis_result(build.R.a), test.diagnoses_store.has_diagnosis_result(build.R.b))
@@ -412,8 +429,11 @@ def concurrent_runs(seeds):
       def run(tag):
         out = []
         tests[tag].add_output_callbacks(out.append)
-        tests[tag].execute(test_start=htf.PhaseOptions(name='trigger' + tag)(start(tag)))
-        recs[tag] = out[0]
+        try:
+          tests[tag].execute(test_start=htf.PhaseOptions(name='trigger' + tag)(start(tag)))
+        except Exception as e:  # pylint: disable=broad-except
+          box.setdefault('raised', {})[tag] = type(e).__name__
+        recs[tag] = out[0] if out else None
       ths = [threading.Thread(target=run, args=(tag,), name='run' + tag) for tag in 'AB']
       for t in ths:
         t.start()
@@ -426,7 +446,12 @@ def concurrent_runs(seeds):
       bad.append(('two concurrent tests never finish (%s)' % type(e).__name__, dict(seed=sd)))
       continue
     for tag, other in (('A', 'B'), ('B', 'A')):
-      rec = box['recs'][tag]
+      rec = box['recs'].get(tag)
+      if rec is None or not [p for p in rec.phases if p.name == 'shared'] or tag not in box.get('state_seen', {}):
+        bad.append(('one of two concurrently executing tests did not complete its phases (execute() %s)'
+                    % ('raised ' + box['raised'][tag] if tag in box.get('raised', {}) else 'produced no complete record'),
+                    dict(seed=sd)))
+        continue
       ph = [p for p in rec.phases if p.name == 'shared'][0]
       vals = [ph.measurements['who'].measured_value.value, ph.measurements['val'].measured_value.value] + \
           [v for _, v in ph.measurements['dim'].measured_value.value_dict.items()]
@@ -434,6 +459,11 @@ def concurrent_runs(seeds):
         bad.append(('a concurrently executing test saw the other test\'s measurements / record', dict(seed=sd)))
       if ph.attachments['att'].data != ('data of %s' % tag).encode():
         bad.append(('a concurrently executing test saw the other test\'s attachment', dict(seed=sd)))
+      own = box.get('own_seen', {})
+      if rec.outcome is None or rec.outcome.name != 'PASS' or tag not in own or own[tag][:2] != (tag, False) or \
+          (other in own and own[other][2] == own[tag][2]):
+        bad.append(('a concurrently executing test used / tore down the other test\'s plug instance', dict(seed=sd)))
+        continue
       if box['state_seen'][tag] != {'tag': tag}:
         bad.append(('a concurrently executing test saw the other test\'s state dict', dict(seed=sd)))
       want = (True, False) if tag == 'A' else (False, True)
